@@ -48,6 +48,7 @@ func c10Provocations(c *Ctx) map[string]func() string {
 	}
 	c10SiteProvocations(c, out)
 	c10ForkSiteProvocations(c, out)
+	c10SortProvocations(c, out)
 	c10Site2Provocations(c, out)
 	n := 10
 	dir := filepath.Join(c.Scratch, "c10provoke")
